@@ -185,7 +185,7 @@ def gen_config(rng, opts=None):
     route = {'bindings': bindings, 'mws': [dict((kk, vv) for kk, vv in m.items() if kk != 'where') for m in mws if m['where'] == nlev],
              'resources': route_res, 'endpoint': endpoint, 'render': render,
              'methods': ['GET'] if rng.chance(0.5) else None}
-    cfg = {'levels': levels, 'route': route, 'beh': {}}
+    cfg = {'levels': levels, 'route': route, 'beh': {}, 'build_via_add': rng.chance(0.3)}
     used = set(NAMES) & (set(bindings) | set(route_res) | set(x for l in level_res for x in l) |
                          set(n for m in mws for a in ('provides', 'endpoint_provides', 'render_provides') for n in m[a]))
     mentioned = set(p[0] for f in [endpoint, render] + [m.get(ph) for m in mws for ph in ('request', 'endpoint', 'render')] if f
